@@ -88,30 +88,39 @@ def _slot_calls(it, mark):
 
 
 def _payload_iteration(it, env, mark):
-    """One arbitrary input `uri,path` that is processed without an exception is added EXACTLY once, as (uri, content of the file)."""
+    """One arbitrary input `uri,path` that is processed without an exception is added EXACTLY once, as (uri, content of the file).
+    Stated over the loop ELEMENT (not over local names of the body): the element is split here again with the same str.split law."""
     import z3
+    from pyvc import stubs_lib
+    from pyvc.values import VStr
     calls = _slot_calls(it, mark)
     if len(calls) != 1:
         return [("input_added_exactly_once", False)]
     a = calls[0][2]
-    args = env.lookup("args")
-    uri, path = it.iterate(args, unpack=2)
+    parts = stubs_lib.HANDLERS["str.split"](it, it._loop_elem, [VStr(",")], {})
+    uri, path = it.iterate(parts, unpack=2)
     content = it.fs.read_bin(it.stubs.path_term(it, path))
     return [("input_added_exactly_once", True), ("added_with_its_uri_and_file_content", z3.And(a["uri"].e == uri.e, a["data"].e == content))]
 
 
 def _merge_iteration(it, env, mark):
-    """One arbitrary entry (k, v) of the merged file: skipped iff the key is empty (padding); otherwise added exactly once as (k, v)."""
+    """One arbitrary entry (k, v) of the merged file: skipped iff the key is empty (padding); otherwise added exactly once as (k, v).
+    k is the loop element, v the value the decoded map holds for it (no dependence on local names of the body)."""
     import z3
+    from pyvc import plain
+    from pyvc.values import VTuple
     calls = _slot_calls(it, mark)
-    k = env.lookup("k")
+    k, src = it._loop_elem, it._loop_src
+    m = src.m if isinstance(src, plain.VPIter) else src
+    if isinstance(k, VTuple):  # iteration over items(): (k, v)
+        k = k.items[0]
     nonempty = z3.Length(k.e) > 0
     if not calls:
         return [("only_padding_entries_are_skipped", z3.Not(nonempty))]
     if len(calls) != 1:
         return [("entry_added_exactly_once", False)]
     a = calls[0][2]
-    v = env.lookup("cache_dict").value_at(it, k)
+    v = m.value_at(it, k)
     return [("only_padding_entries_are_skipped", nonempty), ("entry_added_exactly_once", True),
             ("added_with_its_key_and_value", z3.And(a["uri"].e == k.e, a["data"].e == v.e))]
 
